@@ -62,11 +62,13 @@ func (c Command) ExecuteIQ(ctx context.Context, iq stanza.IQ, payload xml.TokenR
 	if err != nil {
 		return resp, nil, err
 	}
+	// The named result is already nil when the deferred function runs after an
+	// error return, so keep our own reference to the response.
+	r := respPayload
 	defer func() {
-		respPayload := respPayload
-		if err != nil && respPayload != nil {
+		if err != nil {
 			/* #nosec */
-			respPayload.Close()
+			r.Close()
 		}
 	}()
 	var t xml.Token
@@ -74,17 +76,29 @@ func (c Command) ExecuteIQ(ctx context.Context, iq stanza.IQ, payload xml.TokenR
 	if err != nil {
 		return resp, nil, err
 	}
-	start := t.(xml.StartElement)
+	start, ok := t.(xml.StartElement)
+	if !ok {
+		err = errUnexpectedResponse
+		return resp, nil, err
+	}
 	respIQ, err := stanza.UnmarshalIQError(respPayload, start)
 	if err != nil {
 		return resp, nil, err
 	}
 
-	t, err = respPayload.Token()
-	if err != nil {
-		return resp, nil, err
+	// Skip anything that is not an element (eg. character data) before the
+	// payload.
+	for ok = false; !ok; {
+		t, err = respPayload.Token()
+		if err != nil {
+			return resp, nil, err
+		}
+		if _, end := t.(xml.EndElement); end {
+			err = errUnexpectedResponse
+			return resp, nil, err
+		}
+		start, ok = t.(xml.StartElement)
 	}
-	start = t.(xml.StartElement)
 	resp, err = respFromStart(start, respIQ)
 	if err != nil {
 		return resp, nil, err
@@ -99,12 +113,14 @@ func (c Command) ExecuteIQ(ctx context.Context, iq stanza.IQ, payload xml.TokenR
 	}, nil
 }
 
+var errUnexpectedResponse = errors.New("commands: unexpected response to command")
+
 func respFromStart(start xml.StartElement, stanzaIQ stanza.IQ) (Response, error) {
 	resp := Response{
 		IQ: stanzaIQ,
 	}
 	if start.Name.Local != "command" || start.Name.Space != NS {
-		return resp, errors.New("commands: unexpected response to command")
+		return resp, errUnexpectedResponse
 	}
 	for _, attr := range start.Attr {
 		switch attr.Name.Local {
